@@ -155,7 +155,7 @@ func Options(r *engine.RNG, max int) ([][2]string, bool) {
 		used[k] = true
 		out = append(out, [2]string{k, optVals[r.Intn(len(optVals))]})
 	}
-	return out, len(out) > 1 && r.Chance(1, 6)
+	return out, len(out) > 1 && r.Chance(1, 4)
 }
 
 func raddrShape(r *engine.RNG) *engine.Shape {
